@@ -45,7 +45,7 @@ func (c Cfg) RefLayer(n uint64) int {
 
 var allBF = []uint{2, 3, 4, 16}
 var allKK = []string{"vk", "u64", "i64", "str", "bytes", "int", "uint", "sk"}
-var allVK = []string{"u64", "bytes", "str", "ptr", "iface"}
+var allVK = []string{"u64", "bytes", "str", "ptr", "iface", "long"}
 var allCache = []string{"none", "big", "tiny"}
 
 func pick[T any](r *rand.Rand, xs []T) T { return xs[r.Intn(len(xs))] }
@@ -55,6 +55,9 @@ func RandCfg(r *rand.Rand) Cfg {
 	// vk is the workhorse: it controls layers exactly
 	if r.Intn(2) == 0 {
 		c.KK = "vk"
+	}
+	if c.VKind == "long" && r.Intn(3) != 0 {
+		c.VKind = "u64" // the long values (up to 16 KiB each) are costly: one configuration in eighteen
 	}
 	if r.Intn(12) == 0 {
 		c.KK, c.VKind, c.Fmt, c.Reg = "str", "str", "json", true
